@@ -99,6 +99,10 @@ def check(case, ctx):
         newest = pubs[-1]
         t = last + (newest - last) * op[1] / op[2]
         t = max(last, min(t, newest))
+        if has_push_delay and len(op) > 3 and op[3]:
+            # behind a delay-to-push adapter the consumer may run ahead of the producer
+            t = max(last, newest + timedelta(minutes=op[3]))
+            ctx.event("request-beyond-newest-publication")
         # what the driver would assume for this link right now
         assumed = None
         if _find_dependencies is not None and not has_push_delay:
@@ -167,7 +171,7 @@ def case_st(draw):
             ops.append(["push", draw(st.one_of(st.sampled_from([30, 60, 90, 1440, 4000]), st.integers(1, 300)))])
         else:
             d = draw(st.sampled_from([1, 2, 3, 4, 7]))
-            ops.append(["pull", draw(st.integers(0, d)), d])
+            ops.append(["pull", draw(st.integers(0, d)), d, draw(st.sampled_from([0, 0, 0, 15, 100]))])
     return {"chain": chain, "ops": ops}
 
 
